@@ -167,7 +167,7 @@ def directed(ctx, sc0):
             steps = [{"name": "Join", "c": "t1"},
                      {"name": "Pub", "m": {"k": "vsh", "ver": 1, "key": False, "cts": 0, "n": 0, "nals": []}, "ts": 5000}]
             if a == "aac":
-                steps.append({"name": "Pub", "m": {"k": "ash", "ver": 1 + i % 3, "key": False, "cts": 0, "n": 0, "nals": []}, "ts": 5000})
+                steps.append({"name": "Pub", "m": {"k": "ash", "ver": 1 + i % 7, "key": False, "cts": 0, "n": 0, "nals": []}, "ts": 5000})
             t = 5000
             steps.append({"name": "Pub", "m": {"k": "v", "ver": 0, "key": True, "cts": 0, "n": 0,
                                                "nals": [{"t": "sei", "v": 0, "n": NAL_SIZES[(i + 3) % 9]}, {"t": "idr", "v": 0, "n": n}]}, "ts": t})
@@ -441,8 +441,10 @@ def why_lines(ctx):
     return out
 
 
-def run(ctx, c02=False):
-    """c02=True: the part that decides C02's clauses for HTTP-TS and RTSP consumers (late joiners: PAT/PMT or the session
+def run(ctx, c02=False, c09=False):
+    """c09=True: only simulated and directed scenarios (the continuity counters that Rtmp2MpegtsRemuxer carries from one
+    frame to the next on each PID, at HTTP-TS consumers and in HLS segments), no design-level runs.
+    c02=True: the part that decides C02's clauses for HTTP-TS and RTSP consumers (late joiners: PAT/PMT or the session
     description first, the first video frame a key frame, no consumer of a stream without video held back) - the design
     runs with late consumers, two mutants, fewer simulated behaviours and the directed join scenarios."""
     E.build_harness(ctx)
@@ -465,6 +467,9 @@ def run(ctx, c02=False):
             ("nodrain", "none_aac", 4, "NoKinds", "Dt2", 16)]
     if not ctx.quick:
         muts += [("anyps", "avc_aac", 4, "AvcAll", "Dt1", 16), ("hold", "none_aac", 7, "NoKinds", "Dt2", 3)]
+    if c09:
+        bfs, muts = [], []
+        nsim = max(5, nsim // 5)
     if c02:
         bfs = [b for b in bfs if b[0] in ("avc_aac", "none_aac")][:4]
         muts = [m for m in muts if m[0] in ("stage", "stale", "hold")]
@@ -495,7 +500,7 @@ def run(ctx, c02=False):
     # non-vacuity of the design check: a behaviour in which both HTTP-TS consumers are handed video and audio and
     # the late joiner starts mid-stream must exist (TLC has to report the negated witness as violated); the same for an
     # RTSP subscriber that waited for a key frame and was then handed video and audio
-    jobs = [(do_bfs, x) for x in bfs] + [(do_mut, x) for x in muts] + [(do_wit, ("WitnessV", "t")), (do_wit, ("WitnessR", "r"))]
+    jobs = [(do_bfs, x) for x in bfs] + [(do_mut, x) for x in muts] + ([] if c09 else [(do_wit, ("WitnessV", "t")), (do_wit, ("WitnessR", "r"))])
     # the simulations that emit the scenarios run next to the design-level checks
     sim_ex = cf.ThreadPoolExecutor(max_workers=max(2, E.NCPU // 2))
     sim_futs = [sim_ex.submit(do_sim, combo) for combo in sorted(COMBOS)]
@@ -530,8 +535,9 @@ def run(ctx, c02=False):
             scen.append(concretise(ctx, combo, b, len(scen), big_budget))
         ctx.log("simulate %s: %d behaviours, %d distinct" % (combo, len(bs), len(seen)))
     scen += directed(ctx, len(scen))
-    scen += directed_rtsp(ctx, len(scen))
-    if not c02:
+    if not c09:
+        scen += directed_rtsp(ctx, len(scen))
+    if not c02 and not c09:
         scen += directed_short(ctx, len(scen))
         scen += directed_clock(ctx, len(scen))
     scen = [dedupe_short(s) for s in scen]
@@ -572,6 +578,13 @@ def run(ctx, c02=False):
             sh = r["sc"] // per
             lo = starts[sh * per]
             parts = whys.get((sh, g0 - lo + r["line"] + 1))
+        if c09:
+            # C09 decides the TS layer only: a rejection counts if a PES frame of the event is malformed at that layer
+            # (continuity, lengths, headers, stray bytes); anything else is C06's to report
+            outs = list(ev.get("out", {}).values()) + ([ev["hls"]] if "hls" in ev else [])
+            if not any(o.get("bad") or any(not (f["ccOk"] and f["lenOk"] and f["hdrOk"]) or f.get("junk") for f in o.get("frames", []))
+                       for o in outs):
+                continue
         kind = ev.get("m", {}).get("k", "") if ev.get("ev") == "Pub" else ""
         cls = sorted(set(re.sub(r"\bt[12]\b", "ts", x.strip()) for x in (parts or "?").strip("{}").split(",")))
         sig = "%s:%s:%s" % (ev.get("ev"), kind, "+".join(cls))
